@@ -69,92 +69,101 @@ Definition trail_of (md : mode) (p : path) : path := match md with Disable => []
 (* ------------------------------------------------ DISABLE / FIRST: the first error in crown order ---- *)
 Inductive step1 := Go1 (fields : list (nat * nat)) (x : extras) | Stop (e : err).
 
-(* x is the extra mapping of the node being processed; a finished sub-node adds its own under its key *)
-Fixpoint first (md : mode) (fuel : nat) (c : crown) (p : path) (d : pv) (f : list (nat * nat)) : step1 :=
-  match fuel with
-  | O => Stop (E TypeLE [])
-  | S fuel' =>
-    match c with
-    | CField _ | CNone => Go1 f []
-    | CDict m =>
-      let fix go (rest : list (string * crown)) (f : list (nat * nat)) (x : extras) : step1 :=
-        match rest with
-        | [] => Go1 f x
-        | (k, sub) :: r =>
-          match dget d k with
-          | BadKind => Stop (E TypeLE (trail_of md p))
-          | Missing =>
-              match sub with
-              | CField i => if fi_required (info i)
-                            then Stop (E (NoReqFields (missing_required m d)) (trail_of md p))
-                            else go r (f ++ [(i, fi_default (info i))]) x
-              | _ => Stop (E (NoReqFields (missing_required m d)) (trail_of md p))
-              end
-          | Found v =>
-              match sub with
-              | CField i => match v with
-                            | VInt n => go r (f ++ [(i, n)]) x
-                            | _ => Stop (E TypeLE (trail_of md (p ++ [KS k])))
-                            end
-              | CNone => go r f x
-              | _ => match first md fuel' sub (p ++ [KS k]) v f with
-                     | Go1 f' sx => go r f' (match sx with [] => x | _ => x ++ [(KS k, VDict sx)] end)
-                     | Stop e => Stop e
-                     end
-              end
-          end
-        end in
-      match (match m with [] => (match d with VDict _ => Go1 f [] | _ => Stop (E TypeLE (trail_of md p)) end)
-                        | _ => go m f [] end) with
-      | Stop e => Stop e
-      | Go1 f' x =>
-          match pol with
-          | Skip => Go1 f' []
-          | Forbid => match unknown_keys m d with
-                      | [] => Go1 f' []
-                      | ks => Stop (E (ExtraFields ks) (trail_of md p))
-                      end
-          | Collect => Go1 f' (x ++ unknown_items m d)
-          end
-      end
-    | CList m =>
-      let expected := List.length m in
-      let fix go (rest : list crown) (i : nat) (f : list (nat * nat)) : step1 :=
-        match rest with
-        | [] => Go1 f []
-        | sub :: r =>
-          match sub with
-          | CNone => go r (S i) f
-          | _ =>
-            match lget d i with
-            | BadKind => Stop (E TypeLE (trail_of md p))
-            | Missing => Stop (E (NoReqItems expected) (trail_of md p))
-            | Found v =>
-                match sub with
-                | CField id => match v with
-                               | VInt n => go r (S i) (f ++ [(id, n)])
-                               | _ => Stop (E TypeLE (trail_of md (p ++ [KI i])))
-                               end
-                | _ => match first md fuel' sub (p ++ [KI i]) v f with
-                       | Go1 f' _ => go r (S i) f'
-                       | Stop e => Stop e
-                       end
-                end
-            end
-          end
-        end in
-      match d with
-      | VList _ =>
-        match go m 0 f with
-        | Stop e => Stop e
-        | Go1 f' _ =>
-            if Nat.ltb (data_len d) expected then Stop (E (NoReqItems expected) (trail_of md p))
-            else if (match pol with Forbid => true | _ => false end) && Nat.ltb expected (data_len d)
-                 then Stop (E (ExtraItems expected) (trail_of md p))
-                 else Go1 f' []
+Definition add_sub_extra (k : key) (sx x : extras) : extras :=
+  match sx with [] => x | _ => x ++ [(k, VDict sx)] end.
+
+Section FirstLoops.
+Variable md : mode.
+Variable rec : crown -> path -> pv -> list (nat * nat) -> step1.      (* the loader of a sub-node *)
+
+(* the children of a dict node, in crown order; x is the extra mapping of the node being processed *)
+Fixpoint dict_first (m : list (string * crown)) (p : path) (d : pv) (rest : list (string * crown))
+                    (f : list (nat * nat)) (x : extras) : step1 :=
+  match rest with
+  | [] => Go1 f x
+  | (k, sub) :: r =>
+    match dget d k with
+    | BadKind => Stop (E TypeLE (trail_of md p))
+    | Missing =>
+        match sub with
+        | CField i => if fi_required (info i)
+                      then Stop (E (NoReqFields (missing_required m d)) (trail_of md p))
+                      else dict_first m p d r (f ++ [(i, fi_default (info i))]) x
+        | _ => Stop (E (NoReqFields (missing_required m d)) (trail_of md p))
         end
-      | _ => Stop (E TypeLE (trail_of md p))
+    | Found v =>
+        match sub with
+        | CField i => match v with
+                      | VInt n => dict_first m p d r (f ++ [(i, n)]) x
+                      | _ => Stop (E TypeLE (trail_of md (p ++ [KS k])))
+                      end
+        | CNone => dict_first m p d r f x
+        | _ => match rec sub (p ++ [KS k]) v f with
+               | Go1 f' sx => dict_first m p d r f' (add_sub_extra (KS k) sx x)
+               | Stop e => Stop e
+               end
+        end
+    end
+  end.
+
+Fixpoint list_first (expected : nat) (p : path) (d : pv) (rest : list crown) (i : nat) (f : list (nat * nat)) : step1 :=
+  match rest with
+  | [] => Go1 f []
+  | sub :: r =>
+    match sub with
+    | CNone => list_first expected p d r (S i) f
+    | _ =>
+      match lget d i with
+      | BadKind => Stop (E TypeLE (trail_of md p))
+      | Missing => Stop (E (NoReqItems expected) (trail_of md p))
+      | Found v =>
+          match sub with
+          | CField id => match v with
+                         | VInt n => list_first expected p d r (S i) (f ++ [(id, n)])
+                         | _ => Stop (E TypeLE (trail_of md (p ++ [KI i])))
+                         end
+          | _ => match rec sub (p ++ [KI i]) v f with
+                 | Go1 f' _ => list_first expected p d r (S i) f'
+                 | Stop e => Stop e
+                 end
+          end
       end
+    end
+  end.
+End FirstLoops.
+
+Definition is_forbid : bool := match pol with Forbid => true | _ => false end.
+
+Fixpoint first (md : mode) (c : crown) (p : path) (d : pv) (f : list (nat * nat)) {struct c} : step1 :=
+  match c with
+  | CField _ | CNone => Go1 f []
+  | CDict m =>
+    match (match m with [] => (match d with VDict _ => Go1 f [] | _ => Stop (E TypeLE (trail_of md p)) end)
+                      | _ => dict_first md (first md) m p d m f [] end) with
+    | Stop e => Stop e
+    | Go1 f' x =>
+        match pol with
+        | Skip => Go1 f' []
+        | Forbid => match unknown_keys m d with
+                    | [] => Go1 f' []
+                    | ks => Stop (E (ExtraFields ks) (trail_of md p))
+                    end
+        | Collect => Go1 f' (x ++ unknown_items m d)
+        end
+    end
+  | CList m =>
+    let expected := List.length m in
+    match d with
+    | VList _ =>
+      match list_first md (first md) expected p d m 0 f with
+      | Stop e => Stop e
+      | Go1 f' _ =>
+          if Nat.ltb (data_len d) expected then Stop (E (NoReqItems expected) (trail_of md p))
+          else if is_forbid && Nat.ltb expected (data_len d)
+               then Stop (E (ExtraItems expected) (trail_of md p))
+               else Go1 f' []
+      end
+    | _ => Stop (E TypeLE (trail_of md p))
     end
   end.
 
@@ -165,101 +174,104 @@ Inductive stepA := GoA (s : st) (x : extras) | BadA.      (* BadA: the data of t
 Definition add_err (e : err) (s : st) : st := {| fields := fields s; errs := errs s ++ [e] |}.
 Definition add_field (i v : nat) (s : st) : st := {| fields := fields s ++ [(i, v)]; errs := errs s |}.
 
-Fixpoint all (fuel : nat) (c : crown) (p : path) (d : pv) (s : st) : stepA :=
-  match fuel with
-  | O => BadA
-  | S fuel' =>
-    match c with
-    | CField _ | CNone => GoA s []
-    | CDict m =>
-      (* nf: the NoRequiredFieldsLoadError of this node has been reported *)
-      let fix go (rest : list (string * crown)) (s : st) (x : extras) (nf : bool) : stepA :=
-        match rest with
-        | [] => GoA s x
-        | (k, sub) :: r =>
-          match dget d k with
-          | BadKind => BadA
-          | Missing =>
-              let report := if nf then s else add_err (E (NoReqFields (missing_required m d)) p) s in
-              match sub with
-              | CField i => if fi_required (info i) then go r report x true
-                            else go r (add_field i (fi_default (info i)) s) x nf
-              | _ => go r report x true
-              end
-          | Found v =>
-              match sub with
-              | CField i => match v with
-                            | VInt n => go r (add_field i n s) x nf
-                            | _ => go r (add_err (E TypeLE (p ++ [KS k])) s) x nf
-                            end
-              | CNone => go r s x nf
-              | _ => match all fuel' sub (p ++ [KS k]) v s with
-                     | GoA s' sx => go r s' (match sx with [] => x | _ => x ++ [(KS k, VDict sx)] end) nf
-                     | BadA => go r (add_err (E TypeLE (p ++ [KS k])) s) x nf    (* caught by the TypeLoadError wrapper *)
-                     end
-              end
-          end
-        end in
-      match (match m with [] => (match d with VDict _ => GoA s [] | _ => BadA end) | _ => go m s [] false end) with
-      | BadA => BadA
-      | GoA s' x =>
-          match pol with
-          | Skip => GoA s' []
-          | Forbid => match unknown_keys m d with
-                      | [] => GoA s' []
-                      | ks => GoA (add_err (E (ExtraFields ks) p) s') []
-                      end
-          | Collect => GoA s' (x ++ unknown_items m d)
-          end
-      end
-    | CList m =>
-      let expected := List.length m in
-      let fix go (rest : list crown) (i : nat) (s : st) : stepA :=
-        match rest with
-        | [] => GoA s []
-        | sub :: r =>
-          match sub with
-          | CNone => go r (S i) s
-          | _ =>
-            match lget d i with
-            | BadKind => BadA
-            | Missing => go r (S i) s                    (* reported once by the length check *)
-            | Found v =>
-                match sub with
-                | CField id => match v with
-                               | VInt n => go r (S i) (add_field id n s)
-                               | _ => go r (S i) (add_err (E TypeLE (p ++ [KI i])) s)
-                               end
-                | _ => match all fuel' sub (p ++ [KI i]) v s with
-                       | GoA s' _ => go r (S i) s'
-                       | BadA => go r (S i) (add_err (E TypeLE (p ++ [KI i])) s)
-                       end
-                end
-            end
-          end
-        end in
-      match d with
-      | VList _ =>
-        match go m 0 s with
-        | BadA => BadA
-        | GoA s' _ =>
-            if Nat.ltb (data_len d) expected then GoA (add_err (E (NoReqItems expected) p) s') []
-            else if (match pol with Forbid => true | _ => false end) && Nat.ltb expected (data_len d)
-                 then GoA (add_err (E (ExtraItems expected) p) s') []
-                 else GoA s' []
+Section AllLoops.
+Variable rec : crown -> path -> pv -> st -> stepA.
+
+(* nf: the NoRequiredFieldsLoadError of this node has been reported *)
+Fixpoint dict_all (m : list (string * crown)) (p : path) (d : pv) (rest : list (string * crown))
+                  (s : st) (x : extras) (nf : bool) : stepA :=
+  match rest with
+  | [] => GoA s x
+  | (k, sub) :: r =>
+    match dget d k with
+    | BadKind => BadA
+    | Missing =>
+        let report := if nf then s else add_err (E (NoReqFields (missing_required m d)) p) s in
+        match sub with
+        | CField i => if fi_required (info i) then dict_all m p d r report x true
+                      else dict_all m p d r (add_field i (fi_default (info i)) s) x nf
+        | _ => dict_all m p d r report x true
         end
-      | _ => BadA
+    | Found v =>
+        match sub with
+        | CField i => match v with
+                      | VInt n => dict_all m p d r (add_field i n s) x nf
+                      | _ => dict_all m p d r (add_err (E TypeLE (p ++ [KS k])) s) x nf
+                      end
+        | CNone => dict_all m p d r s x nf
+        | _ => match rec sub (p ++ [KS k]) v s with
+               | GoA s' sx => dict_all m p d r s' (add_sub_extra (KS k) sx x) nf
+               | BadA => dict_all m p d r (add_err (E TypeLE (p ++ [KS k])) s) x nf   (* the TypeLoadError wrapper *)
+               end
+        end
+    end
+  end.
+
+Fixpoint list_all (p : path) (d : pv) (rest : list crown) (i : nat) (s : st) : stepA :=
+  match rest with
+  | [] => GoA s []
+  | sub :: r =>
+    match sub with
+    | CNone => list_all p d r (S i) s
+    | _ =>
+      match lget d i with
+      | BadKind => BadA
+      | Missing => list_all p d r (S i) s                    (* reported once by the length check *)
+      | Found v =>
+          match sub with
+          | CField id => match v with
+                         | VInt n => list_all p d r (S i) (add_field id n s)
+                         | _ => list_all p d r (S i) (add_err (E TypeLE (p ++ [KI i])) s)
+                         end
+          | _ => match rec sub (p ++ [KI i]) v s with
+                 | GoA s' _ => list_all p d r (S i) s'
+                 | BadA => list_all p d r (S i) (add_err (E TypeLE (p ++ [KI i])) s)
+                 end
+          end
       end
+    end
+  end.
+End AllLoops.
+
+Fixpoint all (c : crown) (p : path) (d : pv) (s : st) {struct c} : stepA :=
+  match c with
+  | CField _ | CNone => GoA s []
+  | CDict m =>
+    match (match m with [] => (match d with VDict _ => GoA s [] | _ => BadA end) | _ => dict_all all m p d m s [] false end) with
+    | BadA => BadA
+    | GoA s' x =>
+        match pol with
+        | Skip => GoA s' []
+        | Forbid => match unknown_keys m d with
+                    | [] => GoA s' []
+                    | ks => GoA (add_err (E (ExtraFields ks) p) s') []
+                    end
+        | Collect => GoA s' (x ++ unknown_items m d)
+        end
+    end
+  | CList m =>
+    let expected := List.length m in
+    match d with
+    | VList _ =>
+      match list_all all p d m 0 s with
+      | BadA => BadA
+      | GoA s' _ =>
+          if Nat.ltb (data_len d) expected then GoA (add_err (E (NoReqItems expected) p) s') []
+          else if is_forbid && Nat.ltb expected (data_len d)
+               then GoA (add_err (E (ExtraItems expected) p) s') []
+               else GoA s' []
+      end
+    | _ => BadA
     end
   end.
 
 Definition load (md : mode) (c : crown) (d : pv) : outcome :=
   match md with
-  | All => match all 50 c [] d {| fields := []; errs := [] |} with
+  | All => match all c [] d {| fields := []; errs := [] |} with
            | BadA => Group [E TypeLE []]
            | GoA s x => match errs s with [] => Loaded (fields s) x | es => Group es end
            end
-  | _ => match first md 50 c [] d [] with
+  | _ => match first md c [] d [] with
          | Stop e => Single e
          | Go1 f x => Loaded f x
          end
@@ -275,39 +287,39 @@ Variable default : nat -> nat.
 Definition omitted (i : nat) : bool :=
   omit i && match value i with Some v => Nat.eqb v (default i) | None => false end.
 
-Fixpoint dump (fuel : nat) (c : crown) : option pv :=
-  match fuel with
-  | O => None
-  | S fuel' =>
-    match c with
-    | CField i => option_map VInt (value i)
-    | CNone => Some VNone
-    | CDict m =>
-        let fix go (l : list (string * crown)) : option (list (key * pv)) :=
-          match l with
-          | [] => Some []
-          | (k, sub) :: r =>
-            match sub, go r with
-            | _, None => None
-            | CField i, Some t => if omitted i then Some t
-                                  else match value i with Some v => Some ((KS k, VInt v) :: t) | None => None end
-            | _, Some t => match dump fuel' sub with Some v => Some ((KS k, v) :: t) | None => None end
-            end
-          end in
-        option_map VDict (go m)
-    | CList m =>
-        let fix go (l : list crown) : option (list pv) :=
-          match l with
-          | [] => Some []
-          | sub :: r => match dump fuel' sub, go r with Some v, Some t => Some (v :: t) | _, _ => None end
-          end in
-        option_map VList (go m)
+Section DumpLoops.
+Variable rec : crown -> option pv.
+
+Fixpoint dump_dict (l : list (string * crown)) : option (list (key * pv)) :=
+  match l with
+  | [] => Some []
+  | (k, sub) :: r =>
+    match sub, dump_dict r with
+    | _, None => None
+    | CField i, Some t => if omitted i then Some t
+                          else match value i with Some v => Some ((KS k, VInt v) :: t) | None => None end
+    | _, Some t => match rec sub with Some v => Some ((KS k, v) :: t) | None => None end
     end
+  end.
+
+Fixpoint dump_list (l : list crown) : option (list pv) :=
+  match l with
+  | [] => Some []
+  | sub :: r => match rec sub, dump_list r with Some v, Some t => Some (v :: t) | _, _ => None end
+  end.
+End DumpLoops.
+
+Fixpoint dump (c : crown) : option pv :=
+  match c with
+  | CField i => option_map VInt (value i)
+  | CNone => Some VNone
+  | CDict m => option_map VDict (dump_dict dump m)
+  | CList m => option_map VList (dump_list dump m)
   end.
 
 (* extra_out: the mappings of the target fields are unpacked into the root *)
 Definition dump_model (c : crown) (extra : extras) : option pv :=
-  match dump 50 c with
+  match dump c with
   | Some (VDict kvs) => Some (VDict (kvs ++ extra))
   | other => other
   end.
